@@ -584,23 +584,30 @@ def is_struct(o):
     return isinstance(o, Structure)
 
 
-def snap(o, depth=0):
+def asnap(o):
+    """Deep snapshot of an ARGUMENT: identity-insensitive, but sensitive to everything a caller can see in its own
+    data afterwards -- contents of nested lists, key sets AND key order of dicts."""
+    return snap(o, 0, True)
+
+
+def snap(o, depth=0, ordered=False):
     """Canonical deep snapshot (base container kind, element snapshots); wrappers count as their base type."""
     if depth > 30:
         return ("deep",)
     if is_struct(o):
         return ("struct", type(o).__name__,
-                tuple(sorted((k, snap(v, depth + 1)) for k, v in o.__dict__.items() if not k.startswith("_"))))
+                tuple(sorted((k, snap(v, depth + 1, ordered)) for k, v in o.__dict__.items() if not k.startswith("_"))))
     if isinstance(o, dict):
-        return ("dict", tuple(sorted(((snap(k, depth + 1), snap(v, depth + 1)) for k, v in dict.items(o)), key=repr)))
+        items = [(snap(k, depth + 1, ordered), snap(v, depth + 1, ordered)) for k, v in dict.items(o)]
+        return ("dict", tuple(items if ordered else sorted(items, key=repr)))
     if isinstance(o, collections.deque):
-        return ("deque", tuple(snap(x, depth + 1) for x in collections.deque.__iter__(o)))
+        return ("deque", tuple(snap(x, depth + 1, ordered) for x in collections.deque.__iter__(o)))
     if isinstance(o, list):
-        return ("list", tuple(snap(x, depth + 1) for x in list.__iter__(o)))
+        return ("list", tuple(snap(x, depth + 1, ordered) for x in list.__iter__(o)))
     if isinstance(o, tuple):
-        return ("tuple", tuple(snap(x, depth + 1) for x in o))
+        return ("tuple", tuple(snap(x, depth + 1, ordered) for x in o))
     if isinstance(o, (set, frozenset)):
-        return ("set", tuple(sorted((snap(x, depth + 1) for x in o), key=repr)))
+        return ("set", tuple(sorted((snap(x, depth + 1, ordered) for x in o), key=repr)))
     if isinstance(o, type):
         return ("class", o.__name__)
     return (type(o).__name__, repr(o))
@@ -823,7 +830,7 @@ def run_field_op(op, spec, doc, rnd=None, extra=None):
 
     def check_written(args, before, what):
         for f in args:
-            if snap(args[f]) != before[f]:
+            if asnap(args[f]) != before[f]:
                 res[f][0] = True
                 res[f][3].append(("written", label(ts[f])))
 
@@ -832,7 +839,7 @@ def run_field_op(op, spec, doc, rnd=None, extra=None):
         for f, v in kw.items():
             res[f][4] = shape_of(ts[f], v, spec, False)
         if op == "ctor":
-            before = {f: snap(v) for f, v in kw.items()}
+            before = {f: asnap(v) for f, v in kw.items()}
             x = cls(**kw)
             check_written(kw, before, "constructor")
             args = kw
@@ -840,13 +847,13 @@ def run_field_op(op, spec, doc, rnd=None, extra=None):
             x = cls(**kwargs_of(spec, ns, doc))
             args = {}
             for f, v in kw.items():
-                b = snap(v)
+                b = asnap(v)
                 try:
                     setattr(x, f, v)
                 except ValueError:
                     if spec.owner(f) == "plain":
                         raise
-                if snap(v) != b:
+                if asnap(v) != b:
                     res[f][0] = True
                     res[f][3].append(("written", label(ts[f])))
                 args[f] = v
@@ -859,8 +866,8 @@ def run_field_op(op, spec, doc, rnd=None, extra=None):
         d = decode(doc)
         for f, v in d.items():
             res[f][4] = shape_of(ts[f], v, spec, True)
-        before = {f: snap(v) for f, v in d.items()}
-        whole = snap(d)
+        before = {f: asnap(v) for f, v in d.items()}
+        whole = asnap(d)
         mapper = None
         if op == "deser-mapper":
             ren = {f: f + "_in" for f in list(d)[:2]}
@@ -872,11 +879,11 @@ def run_field_op(op, spec, doc, rnd=None, extra=None):
                     d[f] = {(k + "_in" if k == g else k): v for k, v in d[f].items()}
                     break
             d = {ren.get(k, k): v for k, v in d.items()}
-            before = {f: snap(d[ren.get(f, f)]) for f in doc if ren.get(f, f) in d}
-            whole = snap(d)
-            msnap = snap(mapper)
+            before = {f: asnap(d[ren.get(f, f)]) for f in doc if ren.get(f, f) in d}
+            whole = asnap(d)
+            msnap = asnap(mapper)
             x = Deserializer(cls, mapper=mapper).deserialize(d)
-            if snap(mapper) != msnap:
+            if asnap(mapper) != msnap:
                 extras.append(("writes-arg/Deserializer/mapper", "Deserializer modified the mapper dict it was given"))
             argobjs = {f: d[ren.get(f, f)] for f in doc if ren.get(f, f) in d}
         else:
@@ -889,9 +896,9 @@ def run_field_op(op, spec, doc, rnd=None, extra=None):
                 if not x.used_trusted_instantiation():
                     return None, [], src
             argobjs = {f: d[f] for f in d}
-        if snap(d) != whole:
+        if asnap(d) != whole:
             for f, o in argobjs.items():
-                if snap(o) != before.get(f):
+                if asnap(o) != before.get(f):
                     res[f][0] = True
                     res[f][3].append(("written", label(ts[f])))
             if not any(r[0] for r in res.values()):
@@ -925,10 +932,10 @@ def run_field_op(op, spec, doc, rnd=None, extra=None):
             else:
                 fs = [f for f, _ in spec.fields][:2]
                 mapper = {f: f + "_out" for f in fs}
-                msnap = snap(mapper)
+                msnap = asnap(mapper)
                 r = Serializer(x, mapper=mapper).serialize()
                 keymap.update(mapper)
-                if snap(mapper) != msnap:
+                if asnap(mapper) != msnap:
                     extras.append(("writes-arg/Serializer/mapper", "Serializer modified the mapper dict it was given"))
         except Exception:  # noqa
             if not exotic:
@@ -983,7 +990,7 @@ def run_mutator(spec, doc, extra):
         et = t[1] if t[1] is not None else ["any"]
         e = doc_to_ctor(et, edoc, spec, ns)
         shape = shape_of(et, e, spec, False)
-        before = snap(e)
+        before = asnap(e)
         w = getattr(x, f)
         if t[0] == "map":
             if method == "setitem":
@@ -1000,7 +1007,7 @@ def run_mutator(spec, doc, extra):
             w.extend([e])
         else:
             getattr(w, method)(e)
-        written = snap(e) != before
+        written = asnap(e) != before
         ref = copy.deepcopy(x)
         hits = probe({f: e}, lambda: inst_fp(x, ref), {f: et}, spec)
         out.append((f, method, et, shape, written, bool(hits.get(f)), hits.get(f, [])))
@@ -1139,7 +1146,7 @@ def run_donor(entry, receiver, dspec, doc):
         given = args
     deser = entry == "deser"
     res = {f: [False, False, [], shape_of(ts[f], given[f], dspec, deser)] for f in fs}
-    before = {f: snap(args[f]) for f in fs}
+    before = {f: asnap(args[f]) for f in fs}
     ref_y = copy.deepcopy(y)
     yfp0 = inst_fp(y, ref_y)
     fresh = kwargs_of(rspec, rns, doc)
@@ -1170,7 +1177,7 @@ def run_donor(entry, receiver, dspec, doc):
     else:
         raise ValueError(entry)
     for f in fs:
-        if snap(args[f]) != before[f]:
+        if asnap(args[f]) != before[f]:
             res[f][0] = True
     if inst_fp(y, ref_y) != yfp0:
         extras.append(("writes-arg/donor:%s/donor-instance" % entry, "handing over the donor's field values changed the donor"))
@@ -1203,24 +1210,24 @@ def run_failing(op, spec, doc, bad_field, bad_value):
     if op == "ctor-fail":
         kw = kwargs_of(spec, ns, doc)
         kw[bad_field] = bad_value
-        before = snap(kw)
+        before = asnap(kw)
         try:
             cls(**kw)
             return None, src
         except Exception:  # noqa
             pass
-        if snap(kw) != before:
+        if asnap(kw) != before:
             fails.append(("writes-arg/constructor-failing", "a failing constructor modified its arguments"))
     else:
         d = copy.deepcopy(doc)
         d[bad_field] = bad_value
-        before = snap(d)
+        before = asnap(d)
         try:
             Deserializer(cls).deserialize(d)
             return None, src
         except Exception:  # noqa
             pass
-        if snap(d) != before:
+        if asnap(d) != before:
             fails.append(("writes-arg/Deserializer-failing", "a failing deserialization modified its input document"))
     return fails, src
 
@@ -1266,65 +1273,146 @@ def site_of(op, kind):
 
 # ===================================================================================== schema / code / conversion / derivation
 
+CODE_ENTRIES = ("schema_to_struct_code", "schema_definitions_to_code", "write_code_from_schema")
+
+
+def code_entry(via):
+    """Replays of earlier versions say via_definitions = True / False."""
+    if via is True:
+        return "schema_definitions_to_code"
+    if via is False or via is None:
+        return "schema_to_struct_code"
+    return via
+
+
 def run_code_required(rnd_schema):
-    """schema_to_struct_code / schema_definitions_to_code: arguments equal to their deep snapshot afterwards."""
-    from typedpy import schema_to_struct_code, schema_definitions_to_code
-    schema, defs, via_defs = rnd_schema
+    """schema_to_struct_code / schema_definitions_to_code / write_code_from_schema: every argument -- the schema, the
+    definitions, at every nesting depth -- equal to its deep snapshot afterwards (contents and order of nested lists,
+    key sets and key order)."""
+    from typedpy import schema_to_struct_code, schema_definitions_to_code, write_code_from_schema
+    schema, defs, via = rnd_schema
+    entry = code_entry(via)
     s, d = copy.deepcopy(schema), copy.deepcopy(defs)
-    bs, bd = snap(s), snap(d)
+    bs, bd = asnap(s), asnap(d)
+    wd = None
     try:
-        if via_defs:
+        if entry == "schema_definitions_to_code":
             schema_definitions_to_code(s)
+        elif entry == "write_code_from_schema":
+            wd = core.workdir("c19code")
+            import os
+            write_code_from_schema(s, d, os.path.join(wd, "generated_c19.py"), "Gen")
         else:
             schema_to_struct_code("Gen", s, d)
         outcome = "ok"
     except Exception as e:  # noqa
         outcome = type(e).__name__
+    finally:
+        if wd is not None:
+            core.cleanup(wd)
     where = []
-    if snap(s) != bs:
-        where += diff_paths(schema, s)
-    if snap(d) != bd:
-        where += ["definitions:" + p for p in diff_paths(defs, d)]
+    if asnap(s) != bs:
+        where += diff_paths(schema, s, ("definitions",) if entry == "schema_definitions_to_code" else ())
+    if asnap(d) != bd:
+        where += diff_paths(defs, d, ("definitions",))
     return bool(where), where, outcome
 
 
-def diff_paths(a, b, path=""):
-    """Last-key paths at which two JSON-like values differ."""
-    if snap(a) == snap(b):
+def diff_paths(a, b, path=()):
+    """Where two JSON-like values differ: key paths with the caller's own names abstracted (a property / definition
+    name becomes *, a list position []), so that a finding is keyed by the schema construct and not by the sample."""
+    if asnap(a) == asnap(b):
         return []
     if isinstance(a, dict) and isinstance(b, dict):
         out = []
-        for k in set(a) | set(b):
+        for k in list(a) + [k for k in b if k not in a]:
+            named = bool(path) and path[-1] in ("properties", "definitions", "patternProperties")
+            sub = path + ("*" if named else str(k),)
             if k not in a or k not in b:
-                out.append(str(k))
+                out.append(".".join(sub))
             else:
-                out += diff_paths(a[k], b[k], str(k))
+                out += diff_paths(a[k], b[k], sub)
+        if not out:
+            out.append(".".join(path + ("key-order",)))
         return out
-    return [path.split(".")[-1] or "value"]
+    if isinstance(a, list) and isinstance(b, list) and len(a) == len(b) and path and path[-1] not in ("required", "enum"):
+        out = []
+        for x, y in zip(a, b):
+            out += diff_paths(x, y, path + ("[]",))
+        return out
+    return [".".join(path) or "value"]
 
 
-def gen_schema(rnd):
+SCALAR_DEFAULTS = {"integer": 3, "string": "s", "array": [1, 2], "boolean": True, "number": 1.5}
+
+
+def gen_scalar_prop(rnd):
+    ty = rnd.choice(["integer", "string", "array", "boolean", "number"])
+    p = {"type": ty}
+    if ty == "array":
+        p["items"] = {"type": "integer"}
+    if rnd.random() < 0.45:
+        p["default"] = copy.deepcopy(SCALAR_DEFAULTS[ty])
+    return p
+
+
+def gen_obj_schema(rnd, depth, refs):
+    """An object schema; its own `required` may name a property that has a default.  Properties may themselves be
+    inline objects, arrays of inline objects (single / positional items), maps of inline objects
+    (additionalProperties), allOf / anyOf / oneOf with an inline object member, references into the definitions."""
     names = rnd.sample(["a", "b", "c", "d"], rnd.randint(1, 3))
-    props = {}
-    for n in names:
-        ty = rnd.choice(["integer", "string", "array", "boolean"])
-        p = {"type": ty}
-        if ty == "array":
-            p["items"] = {"type": "integer"}
-        if rnd.random() < 0.45:
-            p["default"] = {"integer": 3, "string": "s", "array": [1, 2], "boolean": True}[ty]
-        props[n] = p
+    props = {n: gen_prop_schema(rnd, depth, refs) for n in names}
     schema = {"type": "object", "properties": props}
-    r = rnd.random()
-    if r < 0.85:
+    if rnd.random() < 0.85:
         schema["required"] = [n for n in names if rnd.random() < 0.7]
     if rnd.random() < 0.3:
         schema["additionalProperties"] = False
-    via_defs = rnd.random() < 0.3
-    dflt_in_req = any("default" in props[n] for n in schema.get("required", []))
-    if via_defs:
-        return ({"Gen": schema}, {}, True), dflt_in_req
-    return (schema, {}, False), dflt_in_req
+    if rnd.random() < 0.15:
+        schema["description"] = "generated"
+    return schema
+
+
+def gen_prop_schema(rnd, depth, refs):
+    r = rnd.random()
+    if depth >= 2 or r < 0.42:
+        return gen_scalar_prop(rnd)
+    inner = lambda: gen_obj_schema(rnd, depth + 1, refs)
+    if r < 0.58:
+        return inner()
+    if r < 0.68:
+        return {"type": "array", "items": inner()}
+    if r < 0.73:
+        return {"type": "array", "items": [inner(), {"type": "integer"}]}
+    if r < 0.80:
+        return {"type": "object", "additionalProperties": inner()}
+    if r < 0.90:
+        return {rnd.choice(["anyOf", "allOf", "oneOf"]): [inner(), {"type": "string"}]}
+    if refs:
+        return {"$ref": "#/definitions/" + rnd.choice(refs)}
+    return gen_scalar_prop(rnd)
+
+
+def defaulted_in_required(node):
+    """Some object schema, at any depth, lists in its `required` a property that has a default."""
+    if isinstance(node, list):
+        return any(defaulted_in_required(x) for x in node)
+    if not isinstance(node, dict):
+        return False
+    props = node.get("properties")
+    if isinstance(props, dict) and isinstance(node.get("required"), list) and any(
+            isinstance(props.get(n), dict) and "default" in props[n] for n in node["required"]):
+        return True
+    return any(defaulted_in_required(v) for k, v in node.items() if k != "default")
+
+
+def gen_schema(rnd):
+    refs = rnd.sample(["DefA", "DefB"], rnd.choice([0, 0, 1, 2]))
+    defs = {n: gen_obj_schema(rnd, 1, []) for n in refs}
+    schema = gen_obj_schema(rnd, 0, refs)
+    entry = rnd.choice(["schema_to_struct_code", "schema_to_struct_code", "schema_definitions_to_code", "write_code_from_schema"])
+    if entry == "schema_definitions_to_code":
+        schema, defs = dict({"Gen": schema}, **defs), {}
+    return (schema, defs, entry), defaulted_in_required([schema, defs])
 
 
 def gen_schema_class(rnd, name):
@@ -1335,7 +1423,7 @@ def gen_schema_class(rnd, name):
     mutable_default = False
     for i in range(n):
         f = "f%d" % i
-        t = rnd.choice([["int"], ["str"], ["arr", ["int"]], ["map", ["int"]], ["arr", ["str"]]])
+        t = rnd.choice([["int"], ["str"], ["arr", ["int"]], ["map", ["int"]], ["arr", ["str"]], ["arr", ["arr", ["int"]]]])
         fields.append((f, t))
         r = rnd.random()
         if r < 0.35:
@@ -1343,6 +1431,8 @@ def gen_schema_class(rnd, name):
                 defaults[f] = "5"
             elif t == ["str"]:
                 defaults[f] = "'dv'"
+            elif t == ["arr", ["arr", ["int"]]]:
+                defaults[f] = "[[1], [2, 3]]" if rnd.random() < 0.7 else "(lambda: [[1]])"
             elif t[0] == "arr" and rnd.random() < 0.6:
                 defaults[f] = "[1, 2]" if t[1] == ["int"] else "['x']"
                 mutable_default = True
@@ -1380,11 +1470,11 @@ def run_schema(spec):
     fp0 = class_fp(cls)
     req0 = list(cls._required)
     mapper_obj = getattr(cls, "_serialization_mapper", None)
-    msnap = snap(mapper_obj) if isinstance(mapper_obj, dict) else None
+    msnap = asnap(mapper_obj) if isinstance(mapper_obj, dict) else None
     schema, defs = structure_to_schema(cls, {})
     written = list(cls._required) != req0 or class_fp(cls) != fp0
     where = ["class-_required"] if list(cls._required) != req0 else (["class-state"] if written else [])
-    if msnap is not None and snap(mapper_obj) != msnap:
+    if msnap is not None and asnap(mapper_obj) != msnap:
         written = True
         where.append("class-_serialization_mapper")
     cls._required[:] = req0
@@ -1457,16 +1547,16 @@ def run_convert(doc, maps_ast):
     from typedpy.serialization.versioned_mapping import convert_dict
     maps = [c17.realize_mapping(m, c17.FUNCS()) for m in maps_ast]
     d = copy.deepcopy(doc)
-    bd, bm = snap(d), [c17.describe_mapping(m) for m in maps]
+    bd, bm = asnap(d), [c17.describe_mapping(m) for m in maps]
     try:
         r = convert_dict(d, maps)
     except Exception:  # noqa
-        return snap(d) != bd or [c17.describe_mapping(m) for m in maps] != bm, False, False
-    written = snap(d) != bd or [c17.describe_mapping(m) for m in maps] != bm
+        return asnap(d) != bd or [c17.describe_mapping(m) for m in maps] != bm, False, False
+    written = asnap(d) != bd or [c17.describe_mapping(m) for m in maps] != bm
     empty = ClassSpec("X", "plain", [])
     for c, _ in containers(r, None, empty):
         mutate(c)
-    live = snap(d) != bd
+    live = asnap(d) != bd
     shares_mapping = [c17.describe_mapping(m) for m in maps] != bm
     return written, live, shares_mapping
 
@@ -1510,9 +1600,9 @@ def mapping_snap(maps):
             if isinstance(v, (str, type)):
                 row.append((k, repr(v)))
             elif callable(v) and not hasattr(v, "args"):
-                row.append((k, type(v).__name__, snap(v())))
+                row.append((k, type(v).__name__, asnap(v())))
             else:
-                row.append((k, type(v).__name__, snap(getattr(v, "args", None)), id(getattr(v, "func", None))))
+                row.append((k, type(v).__name__, asnap(getattr(v, "args", None)), id(getattr(v, "func", None))))
         out.append(tuple(row))
     return tuple(out)
 
@@ -1527,16 +1617,16 @@ def run_versioned(immutable, doc, api):
     cls = ns["C19V"]
     d = decode(doc)
     maps = cls._versions_mapping
-    bm, bd = mapping_snap(maps), snap(d)
-    before = {f: snap(v) for f, v in d.items()}
+    bm, bd = mapping_snap(maps), asnap(d)
+    before = {f: asnap(v) for f, v in d.items()}
     cfp0 = class_fp(cls)
     x = Deserializer(cls).deserialize(d) if api == "Deserializer" else deserialize_structure(cls, d)
     res = {}
     for f in d:
         if f in VERSIONED_TYPES:
-            res[f] = [snap(d[f]) != before[f], False, []]
+            res[f] = [asnap(d[f]) != before[f], False, []]
     extras = []
-    if snap(d) != bd and not any(r[0] for r in res.values()):
+    if asnap(d) != bd and not any(r[0] for r in res.values()):
         extras.append(("writes-arg/Versioned-%s/document-keys" % api, "deserializing a versioned document changed its key set / version"))
     if mapping_snap(maps) != bm:
         extras.append(("writes-arg/Versioned-%s/_versions_mapping" % api, "deserializing a versioned document changed the class's mapping list"))
@@ -1621,8 +1711,10 @@ def replay(obj):
             print("FAILS:", k, "-", what)
         return 1 if bad or extras else 0
     if kind == "code":
-        written, where, outcome = run_code_required((obj["schema"], obj["definitions"], obj["via_definitions"]))
-        print("schema:", obj["schema"], "outcome:", outcome, "arguments modified at:", where)
+        via = obj.get("entry", obj.get("via_definitions"))
+        written, where, outcome = run_code_required((obj["schema"], obj["definitions"], via))
+        print("%s(...) with schema:" % code_entry(via), json.dumps(obj["schema"]), " definitions:", json.dumps(obj["definitions"]))
+        print("outcome:", outcome, "; arguments modified at:", where, "(required: every argument equal to its deep copy taken before the call)")
         return 1 if written else 0
     if kind == "schema":
         written, where, live, lpaths, src = run_schema(ClassSpec.from_json(obj["spec"]))
@@ -1884,18 +1976,22 @@ def run(rep, tier):
     rep.cov["streams"].setdefault("lattice", {})["classes"] = len(plan) - nrandom
 
     # ---------------------------------------------------------------- schema_to_struct_code / schema_definitions_to_code
-    ncode = 300 if tier == "quick" else 3000
+    ncode = 400 if tier == "quick" else 4000
     for i in range(ncode):
         (schema, defs, via), dflt_in_req = gen_schema(rnd)
         written, where, outcome = run_code_required((schema, defs, via))
-        rep.count("schema_to_struct_code", 1, ("code", dflt_in_req, via, outcome))
+        site = code_entry(via)
+        nested = json.dumps([schema, defs]).count('"properties"')
+        rep.count("schema_to_struct_code", 1, ("code", dflt_in_req, site, outcome, min(nested, 6)))
         rep.stat("schema_to_struct_code", "outcome:" + outcome)
+        rep.stat("schema_to_struct_code", "entry:" + site)
+        rep.stat("schema_to_struct_code", "object-schemas:%d" % min(nested, 6))
+        rep.stat("schema_to_struct_code", "some-required-names-a-defaulted-property:%s" % dflt_in_req)
+        desc = {"kind": "code", "schema": schema, "definitions": defs, "entry": site}
         add_case("(CSop (SCodeRequired %s) %s)" % (E.blit(dflt_in_req), obs_lit(written, False, False)),
-                 {"kind": "code", "schema": schema, "definitions": defs, "via_definitions": via, "observed": [written, False, False], "py_violates": written})
+                 dict(desc, observed=[written, False, False], py_violates=written))
         for p in sorted(set(where)):
-            site = "schema_definitions_to_code" if via else "schema_to_struct_code"
-            rep.finding("C19/writes-arg/%s/%s" % (site, p), "%s modified its schema argument in place at %r" % (site, p),
-                        {"kind": "code", "schema": schema, "definitions": defs, "via_definitions": via})
+            rep.finding("C19/writes-arg/%s/%s" % (site, p), "%s modified its schema argument in place at %r" % (site, p), desc)
     # ---------------------------------------------------------------- structure_to_schema
     nsch = 240 if tier == "quick" else 2400
     for i in range(nsch):
